@@ -177,6 +177,12 @@ func (r *runner) profileChecks(views map[string]*LedgerView, commits []CommitRec
 	if r.has("bulk") {
 		r.addV(checkBulk(r, views)...)
 	}
+	if r.has("import-copy") {
+		r.addV(checkImportCopy(r, views)...)
+	}
+	if r.has("post-writes") {
+		r.addV(checkPostWrites(r, views)...)
+	}
 	if r.has("ik") {
 		r.addV(checkIK(r, views)...)
 		funds := int64(u64(r.sc.Params["funds"]))
